@@ -25,7 +25,8 @@ RULE = ("dynamic circuits over {reset,h,x,sx,cx (both directions),measure,barrie
         "thorough additionally enumerates every program of length <=5 on 2 qubits / 1 clbit (exhaustive); every circuit is pushed through the three "
         "list scans, their composition and the two transpiler passes; non-trivial = contains a reset; distinct by program; fixed families: resets after "
         "non-gate state-changing instructions (uncut Move, to_instruction() composites, Initialize) and -- independent simulator only, no model -- "
-        "if / if-else / for / while blocks with resets in their bodies on qubits used again afterwards")
+        "if / if-else / for / while blocks with resets in their bodies on qubits used again afterwards; the two transpiler passes on DAGs an earlier step has "
+        "edited (Decompose directly / as the previous pass of a PassManager, substitute_node_with_dag, apply_operation_front), compared with the circuit the edited DAG describes")
 ASSUMPTIONS = ["Qiskit's circuit<->DAG conversion may re-linearise instructions on disjoint wires: the transpiler passes are compared per wire",
                "reference semantics for the failing-input search: density-matrix branch simulator (harness/oracles/refsim.py)",
                "T12.3 (`optimizeResets_obs`, `each_pass_obs`) is proved for every semantics obeying the four laws of `C12Sem.ResetSem` (a reset commutes "
@@ -141,9 +142,46 @@ def _cf_cases():
             yield ("cf", {"nq": 2, "ncl": 2, "prog": prog, "which": w, "always_oracle": True})
 
 
+def _edited_dag_cases():
+    """seed-independent: the two transpiler passes run on a DAG that an earlier step has already edited, the way a pass pipeline
+    uses them -- a composite instruction expanded by Qiskit's Decompose pass (directly on the DAG, or as the previous pass of one
+    PassManager), the same expansion done by hand with substitute_node_with_dag, operations placed with apply_operation_front.  Such a
+    DAG is a perfectly legal description of a circuit over reset / gates / measure / barrier, but its node indices are no longer in
+    topological order.  The circuit the pass *sees* (dag_to_circuit of the edited DAG, taken before the pass runs) is what goes to the
+    model and the oracle."""
+    w = lambda gname, inner, *qs: _g("wrap", *qs, inner=inner, gname=gname, how="instruction")      # noqa: E731
+    prep = lambda q: w("prep", [_g("reset", 0), _g("reset", 0), _g("h", 0)], q)                      # noqa: E731
+    prep1 = lambda q: w("prep1", [_g("reset", 0), _g("x", 0)], q)                                    # noqa: E731
+    tail = lambda q: w("tail", [_g("x", 0), _g("reset", 0), _g("reset", 0)], q)                      # noqa: E731
+    pair = lambda a, b: w("pair", [_g("h", 0), _g("cx", 0, 1), _g("reset", 0), _g("reset", 0)], a, b)  # noqa: E731
+    flip = lambda q: w("flip", [_g("x", 0)], q)                                                      # noqa: E731
+    names = ["prep", "prep1", "tail", "pair", "flip"]
+    wrapped = [
+        (2, 2, [_g("x", 0), prep(0), _g("cx", 0, 1), _m(0, 0), _m(1, 1)]),
+        (2, 2, [_g("h", 0), _g("cx", 0, 1), _g("reset", 1), prep1(1), _g("cx", 1, 0), _m(0, 0), _m(1, 1)]),
+        (3, 2, [_g("h", 0), pair(1, 2), _g("cx", 0, 1), _g("reset", 2), _g("reset", 2), _m(1, 0), _m(2, 1), _g("reset", 0)]),
+        (2, 1, [_g("x", 0), flip(0), _g("cx", 0, 1), _m(1, 0)]),
+        (2, 1, [_g("h", 0), _g("cx", 0, 1), _m(0, 0), tail(0), _g("reset", 1)]),
+        (2, 2, [_g("x", 1), _m(1, 0), prep(1), _g("barrier", 0, 1), prep1(0), _g("reset", 0), _m(0, 1), _m(1, 0), tail(1)]),
+    ]
+    fronted = [
+        (1, 1, [_g("reset", 0), _g("reset", 0), _m(0, 0)], [_g("x", 0)]),
+        (2, 2, [_g("reset", 0), _g("reset", 0), _g("cx", 0, 1), _m(0, 0), _g("reset", 1), _g("reset", 1), _m(1, 1), _g("reset", 1)], [_g("h", 0), _g("x", 1)]),
+        (2, 2, [_g("h", 1), _m(1, 1), _g("reset", 1), _g("cx", 1, 0), _m(0, 0), _g("reset", 0)], [_g("x", 0), _g("cx", 0, 1)]),
+        (2, 1, [_g("h", 0), _m(0, 0)], [_g("reset", 0), _g("x", 0), _g("reset", 0)]),
+    ]
+    for which in ("dag_consolidate", "dag_final"):
+        for nq, ncl, prog in wrapped:
+            for how in ("decompose", "pm", "subst"):
+                yield ("pass", {"nq": nq, "ncl": ncl, "prog": prog, "which": which, "pre": {"how": how, "names": names}, "always_oracle": True})
+        for nq, ncl, prog, ops in fronted:
+            yield ("pass", {"nq": nq, "ncl": ncl, "prog": prog, "which": which, "pre": {"how": "front", "ops": ops}, "always_oracle": True})
+
+
 def cases(rng, tier):
     yield from _nongate_cases()
     yield from _cf_cases()
+    yield from _edited_dag_cases()
     yield from _applied_cases(rng, tier)
     N = 120 if tier == "quick" else 1500
     for _ in range(N):
@@ -214,6 +252,51 @@ def _emit(qc, prog):
 
 
 def _circ(payload):
+    """the circuit the optimisation is applied to (for "pre" payloads: the circuit described by the edited DAG the pass receives)"""
+    if payload.get("pre"):
+        return _pre_run(payload, run=False)
+    return _raw(payload)
+
+
+def _pass_cls(which):
+    from qiskit_addon_cutting.utils.transpiler_passes import RemoveFinalReset, ConsolidateResets
+    return {"dag_final": RemoveFinalReset, "dag_consolidate": ConsolidateResets}[which]
+
+
+def _pre_run(payload, run):
+    """payload["pre"]: edit the DAG of the written circuit first (how = decompose / pm / subst / front); run=False returns the circuit the
+    edited DAG describes, run=True hands that very DAG object (not a rebuilt one) to the transpiler pass and returns the result"""
+    from qiskit.converters import circuit_to_dag, dag_to_circuit
+    from qiskit.transpiler import PassManager
+    from qiskit.transpiler.passes import Decompose
+    pre = payload["pre"]
+    raw = _raw(payload)
+    cls = _pass_cls(payload["which"])
+    if pre["how"] == "pm":
+        return PassManager([Decompose(list(pre["names"]))] + ([cls()] if run else [])).run(raw)
+    dag = circuit_to_dag(raw)
+    if pre["how"] == "decompose":
+        dag = Decompose(list(pre["names"])).run(dag)
+    elif pre["how"] == "subst":
+        for node in list(dag.op_nodes()):
+            if node.op.name in pre["names"]:
+                dag.substitute_node_with_dag(node, circuit_to_dag(node.op.definition))
+    elif pre["how"] == "front":
+        for ins in pre["ops"]:
+            dag.apply_operation_front(canon.mk_op(ins["name"], ins.get("params", ())), tuple(dag.qubits[q] for q in ins["qubits"]),
+                                      tuple(dag.clbits[c] for c in ins.get("clbits", [])))
+    else:
+        raise ValueError(pre["how"])
+    if not run:
+        return dag_to_circuit(dag)
+    return dag_to_circuit(cls().run(dag))
+
+
+def _run(payload, qc):
+    return _pre_run(payload, run=True) if payload.get("pre") else _apply(qc, payload["which"])
+
+
+def _raw(payload):
     if _has_ext(payload["prog"]):
         from qiskit.circuit import QuantumCircuit, QuantumRegister, ClassicalRegister
         regs = ([QuantumRegister(sz, f"q{i}") for i, sz in enumerate(payload["qregs"])] if payload.get("qregs")
@@ -282,7 +365,7 @@ def run_real(kind, payload):
         from . import c05
         return c05.run_real("generate", payload)
     qc = _circ(payload)
-    out = _apply(qc, payload["which"])
+    out = _run(payload, qc)
     if kind == "cf":
         return {"ok": {"desc": json.loads(json.dumps(_desc(out)))}}
     return {"ok": _view(canon.canon_circuit(out)["instrs"], payload)}
@@ -315,7 +398,7 @@ def describe(kind, payload):
         return {"kind2": "applied", "form": payload["form"]}
     if kind == "cf":
         return {"kind2": "control-flow", "which": payload["which"]}
-    return {"which": payload["which"], "nq": payload["nq"], "len": len(payload["prog"]),
+    return {"which": payload["which"], "nq": payload["nq"], "len": len(payload["prog"]), "dag_edited_first": (payload.get("pre") or {}).get("how", "no"),
             "resets": sum(1 for p in payload["prog"] if p["name"] == "reset")}
 
 
@@ -538,7 +621,7 @@ def oracle(kind, payload):
     qc = _circ(payload)
     before = [tuple(map(lambda x: tuple(x) if isinstance(x, list) else x, s)) for s in _sig(canon.canon_circuit(qc)["instrs"])]
     try:
-        out = _apply(qc.copy(), payload["which"])
+        out = _run(payload, qc.copy())
     except Exception as ex:
         return f"{payload['which']} raised {type(ex).__name__}: {ex}"
     after = [tuple(map(lambda x: tuple(x) if isinstance(x, list) else x, s)) for s in _sig(canon.canon_circuit(out)["instrs"])]
